@@ -3,6 +3,7 @@ CONSTANTS MaxReq = 2
           Grants <- GrantsSmall
           MaxLeases = 2
           MaxClock = 4
+          MaxReconnects = 0
           AppActsOnHeld = TRUE
           QSize = 0
 INVARIANT NothingOvertakesItsRequest
